@@ -619,7 +619,8 @@ def run(chk):
                    nontrivial_fn=lambda c, im: c[1].count('N') < 9)
     chk.oracle('eq_pairs_symmetric', pairs, o_pair, nontrivial_fn=lambda c: c[1] != c[2], key_fn=lambda c: c[1] + ' ' + c[2])
 
-    # the converse of the round trip (Props/C20Ext.lean: mod_dict_determines / _eq / _text / mod_dict_sensitive, add_empty_dict)
+    # the converse of the round trip (Props/C20Ext.lean: mod_dict_determines / _eq / _text / mod_dict_sensitive, add_empty_dict,
+    # pop_mods_add_back)
     # on the implementation: same residues and the same dictionary (compared structurally, in order) => `==`, the same text and
     # the same fields; not `==` on the same residues => the dictionaries differ; add_mod_dict({}) changes nothing
     def o_dict_determines(c):
@@ -642,6 +643,16 @@ def run(chk):
             e.add_mod_dict({}, append=app)
             if annot.dump(e, sort_internal=False) != da:
                 return f'add_mod_dict({{}}, append={app}) changed {da} into {annot.dump(e, sort_internal=False)}'
+        # pop_mods_add_back: the method-level pop_mods() dictionary put back restores everything except the residue mods
+        for app in (False, True):
+            p = a.copy()
+            d = p.pop_mods()
+            p.add_mod_dict(d, append=app)
+            exp = a.copy()
+            exp._internal_mods = None
+            if annot.dump(p, sort_internal=False) != annot.dump(exp, sort_internal=False):
+                return (f'pop_mods() then add_mod_dict(append={app}) gives {annot.dump(p, sort_internal=False)}, expected '
+                        f'{annot.dump(exp, sort_internal=False)} (source without residue mods)')
         if annot.dump(a, sort_internal=False) != da or annot.dump(b, sort_internal=False) != db:
             return 'mod_dict / == / serialize changed their argument'
         return None
